@@ -14,7 +14,7 @@ def run_one(d, tier, demo):
     scratch = tempfile.mkdtemp(prefix='verif-seeded-')
     try:
         shutil.copytree('/repo/boltons', os.path.join(scratch, 'boltons'))
-        r = subprocess.run(['patch', '-p1', '-s', '-d', scratch, '-i', os.path.join(d, 'patch.diff')],
+        r = subprocess.run(['patch', '-p1', '-s', '-F', '3', '-d', scratch, '-i', os.path.join(d, 'patch.diff')],
                            capture_output=True, text=True)
         if r.returncode != 0:
             return os.path.basename(d), 'PATCH-FAILED', r.stdout[-200:] + r.stderr[-200:], 0
